@@ -4,7 +4,7 @@ from __future__ import annotations
 import z3
 
 from pyvc.api import (FnCheck, LoopSpec, Pure, Inline, register, Build, V, Val, SeqVal, IntS, RealS, BoolS, StrS, NONE,
-                      Raise, Unsupported, fresh, vany, vint, vbool, vbytes, vref, as_int, unbox_as)
+                      Raise, Unsupported, fresh, vany, vint, vbool, vbytes, vref, vreal, as_int, unbox_as)
 from pyvc import models
 from . import streams
 
@@ -413,3 +413,140 @@ from contracts import C09 as _c09   # noqa: E402
 class EnqueueOperationBounded(_c09.EnqueueOperation):
     id = 'C13.enqueue_operation_bounded'
     prop = 'C13'
+
+
+# ---------------------------------------------------------------------------------------------------------------
+# the dispatch tables below the middleware: an unknown action / path is answered with the documented fault exception
+# (turned into a SOAP fault + status line by the middleware, C13.do_post) and no handler runs; a known one runs exactly
+# its registered handler once
+DK_MOD = 'sdc11073.dispatch.dispatchkey'
+PE_MOD = 'sdc11073.dispatch.pathelementregistry'
+
+
+@register
+class DispatcherOnPost(FnCheck):
+    id = 'C13.request_dispatcher_on_post'
+    prop = 'C13'
+    tag = 'S'
+    opaque_ok = True
+    target = f'{DK_MOD}:RequestDispatcher.on_post'
+    doc = ('RequestDispatcher.on_post: a message whose (action, body element) has no registered handler raises '
+           'InvalidActionError carrying a SOAP fault - no handler is invoked; otherwise exactly the registered handler is '
+           'called once with the request and its answer is returned')
+
+    def setup(self, b):
+        self.known = b.bool('handler_registered')
+        self.handler = b.obj('registered_handler')
+        self.req = b.obj('request_data')
+        self.o = b.obj('self', cls=(DK_MOD, 'RequestDispatcher'))
+        b.st.ghost['calls'] = ()
+        return self.o, [self.req], {}
+
+    def callees(self, ex):
+        def get_handler(ex_, st, args, kwargs):
+            return vany(z3.If(self.known.e, Val.ref(self.handler.e), Val.none), maybe_none=True, path='func')
+        alloc = lambda n: Pure(lambda e, s, a, k: s.alloc(n), name=n)   # noqa: E731
+        return {f'{DK_MOD}:RequestDispatcher._get_post_handler': Pure(get_handler, name='_get_post_handler (C13.request_dispatcher_lookup)'),
+                'sdc11073.pysoap.soapenvelope:Fault': alloc('Fault'), '*.add_reason_text': Pure(lambda e, s, a, k: NONE),
+                'time.monotonic': Pure(lambda e, s, a, k: vreal(fresh(RealS, 't')), name='time.monotonic')}
+
+    def hooks(self, ex):
+        chk = self
+
+        class H:
+            tracked_names = ('func',)
+
+            @staticmethod
+            def on_call_value(ex_, st, f, args, kwargs, node):
+                st.ghost['calls'] = st.ghost['calls'] + ((st.box(f), tuple(st.box(a) for a in args)),)
+                r = st.alloc('CreatedMessage')
+                st.ghost['c:answer'] = r
+                return [(st.fork(), Raise(ex_.mk_exc('*', 'handler'))), (st, r)]
+        return H
+
+    def post(self, ex, st0, st, outcome, b):
+        calls = st.ghost['calls']
+        if outcome[0] == 'exc' and outcome[1].origin != 'handler':
+            ex.oblige(st, 'only_invalid_action_error_for_unknown_action', z3.And(
+                z3.BoolVal(outcome[1].cls == 'InvalidActionError'), z3.Not(self.known.e)), info={'exc': repr(outcome[1])})
+            ex.oblige(st, 'unknown_action_invokes_no_handler', z3.BoolVal(len(calls) == 0))
+            return
+        ex.oblige(st, 'registered_handler_called_exactly_once_with_the_request', z3.And(
+            self.known.e, calls[0][0] == Val.ref(self.handler.e), z3.BoolVal(len(calls[0][1]) == 1), calls[0][1][0] == Val.ref(self.req.e))
+            if len(calls) == 1 and len(calls[0][1]) == 1 else z3.BoolVal(False))
+        if outcome[0] == 'ret':
+            ex.oblige(st, 'answer_of_the_handler_is_returned', st.box(outcome[1]) == Val.ref(st.ghost['c:answer'].e)
+                      if 'c:answer' in st.ghost else z3.BoolVal(False))
+
+
+@register
+class DispatcherLookup(FnCheck):
+    id = 'C13.request_dispatcher_lookup'
+    prop = 'C13'
+    target = f'{DK_MOD}:RequestDispatcher._get_post_handler'
+    container_hints = {'self._post_handlers': 'dict'}
+    doc = ('_get_post_handler: the handler registered under DispatchKey(action, body element name) of the message, or '
+           'None; total, no side effect on the table')
+
+    def setup(self, b):
+        st = b.st
+        self.tab = b.obj('_post_handlers')
+        st.assume(z3.Select(st.get_arr('C'), self.tab.e) == b.ex.ctx.builtin_class_ids['dict'])
+        self.dk0, self.dv0 = z3.Select(st.get_arr('DK'), self.tab.e), z3.Select(st.get_arr('DV'), self.tab.e)
+        self.action, self.qname = b.any('action'), b.any('q_name')
+        md = b.obj('message_data', action=self.action, q_name=self.qname)
+        req = b.obj('request_data', message_data=md)
+        self.o = b.obj('self', cls=(DK_MOD, 'RequestDispatcher'), _post_handlers=self.tab)
+        b.distinct(self.o, self.tab, md, req)
+        self.KEY = z3.Function('DispatchKey', Val, Val, Val)
+        return self.o, [req], {}
+
+    def callees(self, ex):
+        return {f'{DK_MOD}:DispatchKey': Pure(lambda e, st, a, k: vany(self.KEY(st.box(a[0]), st.box(a[1]))),
+                                              name='DispatchKey(action, message_tag): a value (hash / == by both fields)', trusted=True)}
+
+    def post(self, ex, st0, st, outcome, b):
+        if outcome[0] == 'exc':
+            ex.oblige(st, 'never_raises', z3.BoolVal(False), info={'exc': repr(outcome[1])})
+            return
+        key = self.KEY(self.action.e, self.qname.e)
+        ex.oblige(st, 'registered_handler_or_none', st.box(outcome[1]) == z3.If(z3.Select(self.dk0, key), z3.Select(self.dv0, key), Val.none))
+        ex.oblige(st, 'table_untouched', z3.And(z3.Select(st.get_arr('DK'), self.tab.e) == self.dk0,
+                                                z3.Select(st.get_arr('DV'), self.tab.e) == self.dv0))
+
+
+@register
+class PathRegistryGet(FnCheck):
+    id = 'C13.path_registry_get_instance'
+    prop = 'C13'
+    tag = 'S'
+    opaque_ok = True
+    target = f'{PE_MOD}:PathElementRegistry.get_instance'
+    container_hints = {'self._instances': 'dict'}
+    doc = ('PathElementRegistry.get_instance(path element): the object registered under exactly that path element; an '
+           'unknown (or None-valued) element raises InvalidPathError with a SOAP fault - never another exception, never '
+           'another component')
+
+    def setup(self, b):
+        st = b.st
+        self.tab = b.obj('_instances')
+        st.assume(z3.Select(st.get_arr('C'), self.tab.e) == b.ex.ctx.builtin_class_ids['dict'])
+        self.dk0, self.dv0 = z3.Select(st.get_arr('DK'), self.tab.e), z3.Select(st.get_arr('DV'), self.tab.e)
+        self.elem = b.any('path_element', maybe_none=True)
+        self.o = b.obj('self', cls=(PE_MOD, 'PathElementRegistry'), _instances=self.tab)
+        b.distinct(self.o, self.tab)
+        return self.o, [self.elem], {}
+
+    stable_fields = ('_instances',)
+
+    def callees(self, ex):
+        alloc = lambda n: Pure(lambda e, s, a, k: s.alloc(n), name=n)   # noqa: E731
+        return {'sdc11073.pysoap.soapenvelope:Fault': alloc('Fault'), '*.add_reason_text': Pure(lambda e, s, a, k: NONE)}
+
+    def post(self, ex, st0, st, outcome, b):
+        known = z3.And(z3.Select(self.dk0, self.elem.e), z3.Not(Val.is_none(z3.Select(self.dv0, self.elem.e))))
+        if outcome[0] == 'exc':
+            ex.oblige(st, 'only_invalid_path_error_for_unknown_element', z3.And(z3.BoolVal(outcome[1].cls == 'InvalidPathError'), z3.Not(known)),
+                      info={'exc': repr(outcome[1])})
+            return
+        ex.oblige(st, 'returns_the_object_registered_for_that_element', z3.And(known, st.box(outcome[1]) == z3.Select(self.dv0, self.elem.e)))
